@@ -339,6 +339,9 @@ def allowed_lines(doc, ledger, nodes, info):
     a = led["args"].get(name)
     if a is None:
         return None
+    if "items" not in a.get("value", {}):
+        # a scalar (or key/value) argument is one thing: its line is the line it starts on, wherever its value is put
+        return {a["line"]}, False, "argument %s, line %d" % (name, a["line"])
     return set(range(a["line"], a["end"] + 1)), False, "argument %s, lines %d-%d" % (name, a["line"], a["end"])
 
 
